@@ -13,7 +13,7 @@ json.dump(k, open(p, 'w'), indent=1)
 p = '/verif/DESIGN.md'
 s = open(p).read()
 old = "| C17 | `CLIENT SETNAME nan` then"
-row = "| %s | %s (round-5 sub-agent, aside) | %s | fix %s |\n" % (prop, dwhat, how, h)
+row = "| %s | %s (sub-agent aside) | %s | fix %s |\n" % (prop, dwhat, how, h)
 assert old in s
 s = s.replace(old, row + old, 1)
 m = re.search(r"(\d+) defects were repaired", s)
